@@ -193,6 +193,9 @@ func (p *Program) builderASCII(fn *ssa.Function, strCall *ssa.Call, depth int) (
 			case *ssa.Index:
 				src = lk.X
 			}
+			if k, isK := constInt(stripConv(c.Common().Args[1])); isK && k >= 0 && k <= 127 {
+				continue // ret.WriteByte('1')
+			}
 			if src == nil {
 				return false, "builder byte write of unknown origin"
 			}
